@@ -294,7 +294,8 @@ func (s *Session) clientOp(r *rpcState, a *actor, st Step) {
 		opts := s.callOpts(r, st.Opts)
 		ch := s.channel()
 		if ch == nil {
-			s.opStart(a, st, tr.E{"shape": st.Shape})
+			s.opStart(a, st, tr.E{"shape": st.Shape, "method": wire.Val(method), "md": sentMD(r.ctx, st.Opts, r.n), "timeout": st.Timeout,
+				"opts": append([]string{}, st.Opts...), "idx": 0, "n": st.N, "size": WireSize(st.N)})
 			s.opRet(a, st, errFields(tr.E{}, errors.New("no channel")))
 			return
 		}
